@@ -112,6 +112,9 @@ pub fn generate_and_run(prof_name: &str, seed: u64) -> (WCase, Outcome) {
             if let Err(v) = ex.apply(&op) {
                 return (case, finish(ex, Some(v)));
             }
+            if ex.abort_after_fault {
+                return (case, finish(ex, None));
+            }
         }
         if g.rng.chance(prof.par_pct, 100) {
             let mut ph = g.par_phase(&ex);
@@ -130,6 +133,9 @@ pub fn generate_and_run(prof_name: &str, seed: u64) -> (WCase, Outcome) {
             case.steps.push(Step::Op(op.clone()));
             if let Err(v) = ex.apply(&op) {
                 return (case, finish(ex, Some(v)));
+            }
+            if ex.abort_after_fault {
+                return (case, finish(ex, None));
             }
         }
     }
@@ -162,6 +168,9 @@ pub fn replay(case: &WCase) -> Outcome {
         };
         if let Err(v) = r {
             return finish(ex, Some(v));
+        }
+        if ex.abort_after_fault {
+            break;
         }
     }
     finish(ex, None)
